@@ -122,6 +122,17 @@ Theorem c01_refuted_duplicate_rcpt_map :
 Proof. exact refuted_dup_last_result. Qed.
 Print Assumptions c01_refuted_duplicate_rcpt_map.
 
+(** the mirror image: "deliver; UID COPY 1 INBOX twice; expunge UID 2; deliver to
+    <u>,<u>": the first attempt stores a message, the second fails, both
+    positions are answered 550 — a rejection that left a new message *)
+Theorem c01_refuted_duplicate_rejected_but_stored :
+  exists h folder rs p clk,
+    classify (wrun h (w0 [])) folder rs p clk = Some CDupLastResult /\
+    snd (fst (lmtp_data (wrun h (w0 [])) folder rs p clk)) = [R550; R550] /\
+    ~ spec_C01 (wrun h (w0 [])) folder rs p clk.
+Proof. exact refuted_dup_rejected_but_stored. Qed.
+Print Assumptions c01_refuted_duplicate_rejected_but_stored.
+
 (** the hypothesis of [c01_no_spurious_refusal] is needed: after "deliver; UID
     COPY 1 INBOX" the next delivery to an acceptable recipient is refused (550)
     — C03's class copy_stale_uidnext seen from LMTP *)
